@@ -66,6 +66,18 @@ Theorem perm_laplacian : forall F (Fo : FieldOps F) (Ff : IsField F) n k p q nb 
 Proof. exact main_perm_laplacian. Qed.
 Print Assumptions perm_laplacian.
 
+(* Laplacian eigenmaps end to end: the generalised problem L v = lam D v in sample space: a valid
+   answer for the original lists is carried to a valid answer for the relabelled lists, rows permuted *)
+Theorem perm_laplacian_eigenmaps : forall F (Fo : FieldOps F) (Ff : IsField F) n k d p q nb
+    (h h' : nat -> nat -> F) (V : mat F) lam,
+  0 < n -> is_bij n p q -> uniform_rows n k nb -> rows_in_range n nb ->
+  (forall a b, a < n -> b < n -> h' (p a) (p b) = h a b) ->
+  geig_answer n d (lap_L n nb h) (mdiag (lap_D n nb h)) V lam ->
+  geig_answer n d (lap_L n (pnbrs p q nb) h') (mdiag (lap_D n (pnbrs p q nb) h')) (perm_rows q V) lam /\
+  rows_permuted n d q V (perm_rows q V).
+Proof. exact main_perm_laplacian_eigenmaps. Qed.
+Print Assumptions perm_laplacian_eigenmaps.
+
 (* regression (hazard behind F1/F2): with lists of unequal length the same consumer is in range
    for one order of the samples and out of range for another *)
 Theorem perm_laplacian_first_row_refuted :
